@@ -115,6 +115,20 @@ CHECKS["C05"] = dict(
     design="DESIGN.md §5 C05",
     technique="Coq proof (statement-list induction, dictionary last-wins lemma, literal negation lemma) + differential correspondence + expanded-file oracle")
 
+CHECKS["C02"] = dict(
+    text=("Theorems over the front-end model (constructor's text assembly; scanner; statement automaton with the positions of decfile.lark), "
+          "on the character classes / MODEL_NAME alternation / file encoding REGENERATED from the compiled grammar and dec.py: every spelling "
+          "(any white space, LF or CR LF, comments) of every item-level layout (any number of line ends around statements and decay lines, "
+          "line ends and commas inside a started parameter list, repeated semicolons, optional final End) of a statement list is read back "
+          "as exactly that list, hence equal statements and equal answers to every query for two layouts; the constructor hands the parser "
+          "exactly the non-End lines of each file, LF-closed, plus one LF, whatever BOMs / CR LF / missing final newlines; item lists of "
+          "files concatenate; layouts concatenate at statement boundaries. Unbounded in files, statements, layouts. The End-dropping is "
+          "REFUTED for a parameter that is the word End alone on a wrapped line (known finding F16b). PARTIAL: scanner and automaton are a "
+          "hand-written model of Lark's contextual lexer + LALR driver, tied by the correspondence (model statements vs the tree Lark builds "
+          "on every generated / fixture text), and words the lexer would cut in two are outside the modelled domain."),
+    design="DESIGN.md §5 C02",
+    technique="Coq proof (automaton round trip by induction over layout derivations, scanner spelling theorem, constructor line lemmas) over a regenerated lexical configuration + differential correspondence (model vs Lark tree) + metamorphic layout oracle on the implementation")
+
 CHECKS["C06"] = dict(
     text=("Theorems over the model of the MODEL_NAME terminal (ordered alternation of literal names followed by a zero-width boundary, as "
           "Python's re tries it; the alternatives are REGENERATED each run from what Lark compiles for the published list and for this "
